@@ -406,6 +406,16 @@ impl Part for Connect {
     fn check(&self, c: &ConnectCase, ev: &mut Local) -> Result<(), Fail> {
         // the generated ops never contain transport selection; it is appended here with real loopback addresses
         let mut ops: Vec<Op> = c.ops.iter().filter(|o| !matches!(o, Op::Tcp | Op::Udp(_) | Op::UdpAny(_) | Op::Udp6(_))).cloned().collect();
+        // in every other case something else happened on this thread before: another connection's codec refused two packets
+        // (one too large for its size mode, one with a field out of range). The handshake must not notice.
+        if c.ops.len() % 2 == 0 {
+            for pseudo in [0xFFu8, 0xFD] {
+                if let Some(p) = crate::props::c03::seq_packet(&[pseudo], &Mode::Uncompressed) {
+                    let _ = guard(|| insim::net::Codec::new(Mode::Uncompressed).encode(&p).map(|b| b.len()).map_err(|e| e.to_string()));
+                }
+            }
+            ev.class("after another codec of this thread refused packets");
+        }
         let received: Vec<Vec<u8>>;
         let mut expected_count = 1usize;
         let model;
